@@ -201,12 +201,19 @@ def step (st : State) (w : List String) : State × String :=
           dsDigestMatches b64Decode (fun t _ => refs t) limit maxMat (some []) k.flags k.proto k.alg k.pk dt want
         | none => false
       let r := verifyDS supportedDS dmatch limit keys dl
+      -- positions are reported up to key identity (owner case aside): the validator keeps one
+      -- representative of duplicate keys
+      let ident := fun (k : DKey) => (lower (fqdn k.name), k.cls, k.flags, k.proto, k.alg, k.pk)
+      let firstOf := fun (i : Nat) =>
+        match keys[i]? with
+        | some k => ((List.range i).find? (fun j => (keys[j]?).map ident == some (ident k))).getD i
+        | none => i
       let anch := if r.2 then
           let idx := (List.range keys.length).filter (fun i =>
             match keys[i]? with
             | some k => (anchoredKeys supportedDS dmatch limit [k] dl).length == 1
             | none => false)
-          String.intercalate "." (idx.map toString)
+          String.intercalate "." ((idx.map firstOf).eraseDups.map toString)
         else "-"
       (st, s!"unsup={boolStr r.1} ok={boolStr r.2} anch={anch}")
     | _, _ => (st, "bad-op")
